@@ -26,6 +26,12 @@ def generate():
     for name, text in files.items():
         changed = write_if_changed(os.path.join(COQ, "Generated", name), text)
         info["files"][name] = {"bytes": len(text), "rewritten": changed}
+    import gen_registry
+    files2, ginfo = gen_registry.generate()
+    for name, text in files2.items():
+        changed = write_if_changed(os.path.join(COQ, "Generated", name), text)
+        info["files"][name] = {"bytes": len(text), "rewritten": changed}
+    info["registry"] = ginfo
     info["regexes"] = len(rinfo)
     info["hand_modelled"] = [k for k, v in rinfo.items() if v.get("status") == "hand-modelled"]
     return info
